@@ -12,6 +12,14 @@ TRUST = ('Trusted base: rustc nightly THIR/MIR for this source (same cfgs as the
          'the evidence file.')
 
 CHECKS = {
+    'C12': {
+        'technique': 'two-world emission equivalence: reply sites with path conditions; reachability (satisfiability) of each site under the hidden-object world vs the absent-object world',
+        'level': ('Decides for every LIST/NAMES/WHO/WHOIS query form that the reply kinds reachable for a secret channel (requester '
+                  'not a member) equal those for a non-existent channel, and that no per-user reply or name entry is reachable for '
+                  'an invisible user sharing no channel with the requester. The two pinned-tree leaks (WHO #secret rows, NAMES '
+                  '#secret vs absent 366) are reported as known findings.'),
+        'note': TRUST + ' Side channels outside the four commands (PRIVMSG/MODE/TOPIC numerics, timing) are not decided.',
+    },
     'C11': {
         'technique': 'crate-wide assignment census of oper/local_oper with guard entailment; effect-key provenance in user MODE; guard entailment and refusal-condition equivalence for KILL/DIE/SQUIT/WALLOPS/STATS',
         'level': ('Decides that operator flags are raised only in OPER under (configured name, verified password, mask) for the '
